@@ -78,7 +78,10 @@ RING_IMPL(IntRing, intring, int)
 struct RbHarness : Harness {
     const char *name() const override { return "rbsim"; }
     std::vector<std::string> props() const override { return {"C19"}; }
-    uint64_t runs(const std::string &, const Tier &t) const override { return t.thorough() ? 12000000 : 1200000; }
+    std::vector<std::string> probes(const std::string &) const override {
+        return {"override_eviction", "override_eviction_capacity_1", "put_on_full_dropped", "head_wrapped", "tail_wrapped", "get_on_empty", "clear", "iterator_across_wrap"};
+    }
+    uint64_t runs(const std::string &, const Tier &t) const override { return t.thorough() ? 40000000 : 4000000; }
 
     Json describe(const std::string &) const override {
         Json d = Json::obj();
@@ -220,8 +223,5 @@ struct RbHarness : Harness {
 
 int main(int argc, char **argv) {
     RbHarness h;
-    for (const char *p : {"probe.override_eviction", "probe.override_eviction_capacity_1", "probe.put_on_full_dropped", "probe.head_wrapped",
-                          "probe.tail_wrapped", "probe.get_on_empty", "probe.clear", "probe.iterator_across_wrap"})
-        (void)counters().id(p);
     return sim_main(argc, argv, h);
 }
